@@ -54,12 +54,11 @@ FocusOK(a, x) ==
             /\ (Has(x, "lo") => x.lo = 0 /\ x.hi = 1) /\ (Has(x, "how") => x.how = "pop")
             /\ (a = "TLReconstruct" => x.unify) /\ (a = "TreeClone" => x.t = 5 /\ x.nsarg = 0)
       [] Focus = "M" ->     \* explicit memos shared between calls into different containers; hand-made seed nodes
-            /\ a \in {"TLAppendMemo", "TLMigrateMemo", "TreeMigrateMemo", "CMMigrateMemo", "TLNewTreeSeed", "TreeFromSeed", "TLAppend", "TLRemoveAt"}
+            /\ a \in {"TLAppendMemo", "TLMigrateMemo", "TreeMigrateMemo", "CMMigrateMemo", "TLNewTreeSeed", "TreeFromSeed", "TLAppend"}
             /\ (Has(x, "t") => x.t \in {4, 7, 8}) /\ (Has(x, "how") => x.how \in {"append", "pop"}) /\ (Has(x, "i") => x.i = 0)
             /\ (Has(x, "strat") => x.strat = "migrate") /\ (Has(x, "m") => x.m = 2)
             /\ (a = "TLMigrateMemo" => x.l = 1 /\ x.n = 3) /\ (a \in {"TreeMigrateMemo", "CMMigrateMemo"} => x.n = 1)
             /\ (Has(x, "refs") => x.refs = <<6, 7>> /\ x.labs = <<"a", "Q">> /\ (Has(x, "nsarg") => x.nsarg = 1) /\ (Has(x, "l") => x.l = 1))
-            /\ (a = "TLRemoveAt" => x.l = 1)
       [] Focus = "D" ->
             /\ a \in {"DSRead", "DSReadBlocks", "DSAddList", "DSNewList", "DSAttach", "DSDetach", "DSUnify", "CMMigrate", "CMClone", "CMGetTaxon", "TLAppend", "TLMigrate"}
             /\ (Has(x, "m") => x.m = 2) /\ (Has(x, "l") => x.l = 1) /\ (Has(x, "t") => x.t = (IF a = "CMGetTaxon" THEN 2 ELSE 5))
@@ -90,7 +89,7 @@ Docs == {[taxa |-> <<"A", "b", "C">>, rows |-> <<"A", "b">>, trees |-> <<<<"A", 
          \cup W({[taxa |-> <<"B", "c">>, rows |-> <<>>, trees |-> <<<<"c", "B">>>>]}, {})
 BlockDocs == {<<[taxa |-> <<"A", "b", "C">>, trees |-> <<<<"A", "b", "C">>>>], [taxa |-> <<"A", "C", "Z">>, trees |-> <<<<"Z", "A", "C">>>>]>>}
              \cup W({<<[taxa |-> <<"a", "Z">>, trees |-> <<<<"Z", "a">>>>], [taxa |-> <<"z", "B">>, trees |-> <<<<"B", "z">>, <<"z">>>>]>>}, {})
-SeedRefs == IF Big THEN {<<8, 9>>, <<1>>, <<>>} ELSE W({<<6, 7>>, <<1>>, <<>>}, {<<6>>})
+SeedRefs == IF Big THEN {<<8, 9>>, <<1>>, <<>>} ELSE W({<<6, 7>>, <<1>>}, {<<6>>})
 SeedLabs == W({<<>>, <<"a", "Q">>}, {<<"a">>})
 KeySets == W({<<"a", "B">>, <<"A", "a", "c">>}, {<<"A", "a", "c">>})
 LS2 == W(LS, 1..2)              \* lists named as first operand
@@ -176,9 +175,9 @@ Next == \/ \E l \in LS2, t \in FreeT, s \in Strats : TLAppend(l, t, s)
         \/ \E l \in LS2 : TLUpdate(l)
         \/ \E t \in FreeT, n \in W(NS, {1}), b \in BOOLEAN : TreeMigrate(t, n, b)
         \/ \E t \in CloneT, n \in NsA : TreeClone(t, n)
-        \/ \E l \in LS2, t \in W(TS, {4}), how \in W({"append", "insert"}, {"append"}), k \in W({1, 2}, {2}) : TLAppendMemo(l, t, how, k)
+        \/ \E l \in LS2, t \in W({4, 7, 8}, {4}), how \in W({"append", "insert"}, {"append"}), k \in W({1, 2}, {2}) : TLAppendMemo(l, t, how, k)
         \/ \E l \in W(LS, {1}), n \in W(NS, {3}), k \in W({1, 2}, {2}) : TLMigrateMemo(l, n, k)
-        \/ \E t \in W(TS, {4}), n \in W(NS, {1}), k \in W({1, 2}, {1}) : TreeMigrateMemo(t, n, k)
+        \/ \E t \in W({4, 7, 8}, {4}), n \in W(NS, {1}), k \in W({1, 2}, {1}) : TreeMigrateMemo(t, n, k)
         \/ \E m \in W(MS, {2}), n \in W(NS, {1}), k \in W({1, 2}, {2}) : CMMigrateMemo(m, n, k)
         \/ \E l \in W(LS, {1}), refs \in SeedRefs, labs \in SeedLabs : TLNewTreeSeed(l, refs, labs)
         \/ \E n \in W(NS0, {1}), refs \in SeedRefs, labs \in SeedLabs : TreeFromSeed(n, refs, labs)
@@ -186,7 +185,7 @@ Next == \/ \E l \in LS2, t \in FreeT, s \in Strats : TLAppend(l, t, s)
         \/ \E a \in AS, srcs \in W(TreeSrcs, {<<<<"Z", "AB">>>>}) : TARead(a, srcs)
         \/ \E m \in MS, t \in RowX : CMNewSeq(m, t)
         \/ \E m \in MS, t \in RowX : CMSetItem(m, t)
-        \/ \E m \in MS, t \in RowX : CMGetTaxon(m, t)
+        \/ \E m \in MS, t \in (IF Big THEN XS ELSE W({1, 3, 5, 6, 8}, {1, 5})) : CMGetTaxon(m, t)
         \/ \E m \in MS, lab \in W({"c", "B", "q1"}, {"c"}) : CMGetLabel(m, lab)
         \/ \E m \in MS, i \in W({0, 2, 5}, {2}) : CMGetIndex(m, i)
         \/ \E m \in MS, n \in NsT, b \in BOOLEAN : CMMigrate(m, n, b)
